@@ -20,6 +20,10 @@ finally:
     subprocess.run(["git", "-C", "/repo", "checkout", "--", "."], check=True)
     subprocess.run(["python3", "/verif/tools/gen_consts.py"], cwd="/verif", capture_output=True)
 m = json.load(open(d + "/meta.json"))
-m["checks_run"] = res
-m["caught_by"] = [p for p, v in res.items() if v["exit"] == 1]
+allres = m.get("checks_run") or {}
+if isinstance(allres, list):
+    allres = {}
+allres.update(res)
+m["checks_run"] = allres
+m["caught_by"] = sorted(p for p, v in allres.items() if v["exit"] == 1)
 json.dump(m, open(d + "/meta.json", "w"), indent=1)
